@@ -706,4 +706,61 @@ example : (runCalls { a1 := true } {} [⟨.transact, false, envOk, { begin := tr
     ⟨.transact, true, envOk, { begin := true, commit := true, rollback := true }, { stmts := [], fin := .err .userOk }⟩]).map (·.mark)
     = [some true, some false] := by decide
 
+/-! ### round 5 finding: `WithAcceptable(f), WithAcceptable(nil)` -/
+
+/-- **Finding (round 5).**  Options `WithAcceptable(f), WithAcceptable(nil)`: the pinned option closure installs
+`pre(err) || nil(err)`; for every error `f` does not accept the verdict evaluation calls the nil function. -/
+theorem witness_nil_option_is_called (e : Option Err) (h : userFn1 e = false) :
+    (([liftFn userFn1, none].foldl withAcceptablePinned none).map (· e)) = some none := by
+  simp [withAcceptablePinned, liftFn, h]
+
+/-- … so `Transact` leaves by a panic although the transaction ended in an orderly way (rolled back, the body's
+error known): the clause orderly-return is violated on the pinned code. -/
+theorem witness_nil_option_violates_orderly_return :
+    violated (brkDoP (fun e => match [liftFn userFn1, none].foldl withAcceptablePinned none with
+                               | some g => g e | none => some false)
+      (transactFn true { begin := true, commit := true, rollback := true } { stmts := [], fin := .err .plain }))
+      = ["orderly-return"] := by decide
+
+/-- alone or BEFORE a real function a nil argument is harmless also in the pinned code -/
+theorem pinned_nil_first_is_harmless (g : Option Err → Bool) :
+    [none, liftFn g].foldl withAcceptablePinned none = liftFn g ∧
+    [none].foldl withAcceptablePinned none = (none : AccFnP) := by
+  simp [withAcceptablePinned, liftFn]
+
+theorem fixed_step (cur : AccFn) (g : Option Err → Bool) :
+    withAcceptableFixed (liftAcc cur) (liftFn g) = liftAcc (withAcceptable cur g) := by
+  cases cur with
+  | none => rfl
+  | some pre =>
+    simp only [withAcceptableFixed, liftFn, withAcceptablePinned, liftAcc, withAcceptable, Option.map]
+    congr 1
+    funext e
+    cases pre e <;> rfl
+
+/-- **With the patch every nil option is ignored**: for any list of options, nil ones anywhere, the installed
+verdict function is the composition (`withAcceptable`) of the non-nil ones in order — never a nil call; so
+`all_option_sets_hold` applies to every option list. -/
+theorem fixed_nil_options_ignored (fs : List (Option (Option Err → Bool))) (cur : AccFn) :
+    (fs.map (fun o => o.elim none liftFn)).foldl withAcceptableFixed (liftAcc cur) =
+      liftAcc ((fs.filterMap id).foldl withAcceptable cur) := by
+  induction fs generalizing cur with
+  | nil => rfl
+  | cons o fs ih =>
+    cases o with
+    | none =>
+      simp only [List.map_cons, List.foldl_cons, Option.elim, List.filterMap_cons, id]
+      have : withAcceptableFixed (liftAcc cur) none = liftAcc cur := rfl
+      rw [this]; exact ih cur
+    | some g =>
+      simp only [List.map_cons, List.foldl_cons, Option.elim, List.filterMap_cons, id]
+      rw [fixed_step]; exact ih _
+
+example : ([some userFn1, none, some userFn2].map (fun o => o.elim none liftFn)).foldl withAcceptableFixed none
+    = liftAcc ([userFn1, userFn2].foldl withAcceptable none) := fixed_nil_options_ignored _ none
+
+/-- without nil arguments the pinned and the patched closure are the same -/
+theorem pinned_eq_fixed_without_nil (cur : AccFnP) (g : Option Err → Option Bool) :
+    withAcceptablePinned cur (some g) = withAcceptableFixed cur (some g) := rfl
+
 end GoZero.C14.Props
